@@ -252,10 +252,7 @@ theorem substituteDefinedVariables_classEquiv (F : Formula) :
     rw [sat_quantify]
     simp only [sat]
     suffices h : ∀ (l : List Var), (∀ v ∈ l, v ∈ vs) → ∀ b : Formula,
-        bindEx vs (sat I (l.foldl (fun (b : Formula) v =>
-          match findDefinition v b with
-          | some d => b.subst v d
-          | none => b) b)) ρ ↔ bindEx vs (sat I b) ρ by
+        bindEx vs (sat I (l.foldl definedStep b)) ρ ↔ bindEx vs (sat I b) ρ by
       exact h vs.reverse (fun v hv => List.mem_reverse.mp hv) f
     intro l
     induction l with
@@ -265,8 +262,13 @@ theorem substituteDefinedVariables_classEquiv (F : Formula) :
       simp only [List.foldl_cons]
       rw [ih (fun u hu => hl u (List.mem_cons_of_mem _ hu))]
       cases hd : findDefinition v b with
-      | none => exact Iff.rfl
-      | some d => exact defined_step I vs v (hl v List.mem_cons_self) b d hd ρ
+      | none =>
+        have e : definedStep b v = b := by simp only [definedStep, hd]
+        rw [e]
+      | some d =>
+        have e : definedStep b v = b.subst v d := by simp only [definedStep, hd]
+        rw [e]
+        exact defined_step I vs v (hl v List.mem_cons_self) b d hd ρ
   · exact Iff.rfl
 
 /-! ## simplify_transitive_equality -/
